@@ -82,7 +82,9 @@ fn rect(x0: f32, y0: f32, x1: f32, y1: f32, ccw: bool) -> Vec<Point> {
 
 /// A structured polygon generator: mostly valid shapes from several families plus degenerate ones.
 pub fn gen_poly(rng: &mut Rng, max_edges: usize) -> Poly {
-    let kind = rng.below(12);
+    // crossing-heavy families (self-intersecting polygons, spikes, grid multi-polygons) get extra weight:
+    // missed-intersection defects of the sweep only show on a fraction of a percent of them
+    let kind = match rng.below(28) { k @ 0..=15 => k, 16..=18 => 16, 19..=21 => 14, 22..=24 => 15, 25 => 6, _ => 1 };
     let mut p = match kind {
         0 | 1 => {
             // lattice polygon, possibly self-intersecting
@@ -165,6 +167,56 @@ pub fn gen_poly(rng: &mut Rng, max_edges: usize) -> Poly {
                 }
             }
             Poly { subs: vec![(pts, rng.chance(1, 2))], kind: "degenerate" }
+        }
+        16 => {
+            // self-intersecting polygon on a coarse 0..100 integer grid, 5-8 vertices
+            let n = rng.range(5, 8) as usize;
+            let pts = (0..n).map(|_| point(rng.range(0, 100) as f32, rng.range(0, 100) as f32)).collect();
+            Poly { subs: vec![(pts, true)], kind: "grid100" }
+        }
+        12 => {
+            // convex polygon with many vertices (long convex chains on both sides of the sweep)
+            let n = rng.range(12, (max_edges as i64).max(14).min(28)) as usize;
+            let pts = regular(4.0, 4.0, 4.0, n, 1, rng.uniform(0.0, 6.3) as f32, rng.chance(1, 2));
+            Poly { subs: vec![(pts, true)], kind: "convex-many" }
+        }
+        13 => {
+            // blobby star-shaped polygon: random radii around a centre, many vertices
+            let n = rng.range(8, (max_edges as i64).max(10).min(24)) as usize;
+            let ph = rng.uniform(0.0, 6.3);
+            let ccw = rng.chance(1, 2);
+            let pts = (0..n)
+                .map(|i| {
+                    let a = ph + (if ccw { 1.0 } else { -1.0 }) * i as f64 * std::f64::consts::TAU / n as f64;
+                    let r = rng.uniform(1.5, 4.0);
+                    point((4.0 + r * a.cos()) as f32, (4.0 + r * a.sin()) as f32)
+                })
+                .collect();
+            Poly { subs: vec![(pts, true)], kind: "blob" }
+        }
+        14 => {
+            // several long thin spikes crossing each other (many crossings, varied active-edge orders)
+            let k = rng.range(2, 4) as usize;
+            let mut subs = Vec::new();
+            for _ in 0..k {
+                let lat = rng.chance(1, 2);
+                let c = |rng: &mut Rng| if lat { rng.range(0, 10) as f32 } else { rng.uniform(0.0, 10.0) as f32 };
+                let a = point(c(rng), c(rng));
+                let b = point(c(rng), c(rng));
+                let w = if lat { rng.range(1, 2) as f32 } else { rng.uniform(0.3, 1.5) as f32 };
+                subs.push((vec![a, b, point(b.x + w, b.y + if rng.chance(1, 2) { w } else { 0.0 })], true));
+            }
+            Poly { subs, kind: "spikes" }
+        }
+        15 => {
+            // random integer-grid multi-polygon with more sub-paths and vertices
+            let k = rng.range(2, 4) as usize;
+            let mut subs = Vec::new();
+            for _ in 0..k {
+                let n = rng.range(3, 6) as usize;
+                subs.push(((0..n).map(|_| lattice_pt(rng, 10)).collect(), true));
+            }
+            Poly { subs, kind: "grid-multi" }
         }
         10 => {
             // vertex lying on another edge (T-junction) and touching sub-paths
@@ -274,4 +326,164 @@ pub fn put_tris(o: &mut Out, mesh: &Mesh) {
             o.p(p);
         }
     }
+}
+
+
+// ---------------------------------------------------------------------------------------------
+// y-monotone polygons as (position, is_left) sequences in sweep order
+
+/// abscissa of a chain (sorted by y, first/last shared with the other chain) at height y
+pub fn chain_x(chain: &[Point], y: f32) -> f32 {
+    for w in chain.windows(2) {
+        if w[0].y <= y && y <= w[1].y {
+            if w[1].y == w[0].y {
+                return w[0].x;
+            }
+            return w[0].x + (w[1].x - w[0].x) * (y - w[0].y) / (w[1].y - w[0].y);
+        }
+    }
+    chain[chain.len() - 1].x
+}
+
+/// y-monotone polygon whose chains interleave in x (rejection-sampled to be simple)
+pub fn gen_monotone_interleaved(rng: &mut Rng, n_mid: usize) -> Option<Vec<(Point, bool)>> {
+    for _ in 0..40 {
+        let mut seq = vec![(point(rng.uniform(-1.0, 1.0) as f32, 0.0), true)];
+        let mut y = 0.0f32;
+        for _ in 0..n_mid {
+            y += rng.uniform(0.2, 3.0) as f32;
+            let left = rng.chance(1, 2);
+            let x = if left { rng.uniform(-8.0, 4.0) } else { rng.uniform(-4.0, 8.0) } as f32;
+            seq.push((point(x, y), left));
+        }
+        y += rng.uniform(0.2, 3.0) as f32;
+        seq.push((point(rng.uniform(-1.0, 1.0) as f32, y), true));
+        let n = seq.len();
+        let mut l: Vec<Point> = vec![seq[0].0];
+        let mut r: Vec<Point> = vec![seq[0].0];
+        for (p, left) in &seq[1..n - 1] {
+            if *left {
+                l.push(*p)
+            } else {
+                r.push(*p)
+            }
+        }
+        l.push(seq[n - 1].0);
+        r.push(seq[n - 1].0);
+        if seq[1..n - 1].iter().all(|(p, _)| chain_x(&l, p.y) + 0.3 < chain_x(&r, p.y) || (chain_x(&l, p.y) - chain_x(&r, p.y)).abs() < 0.0)
+            && seq[1..n - 1].iter().all(|(p, _)| chain_x(&l, p.y) + 0.3 < chain_x(&r, p.y))
+        {
+            return Some(seq);
+        }
+    }
+    None
+}
+
+pub fn gen_monotone(rng: &mut Rng, n_mid: usize, pattern: Option<u32>, lattice: bool) -> Vec<(Point, bool)> {
+    if pattern.is_none() && !lattice && n_mid >= 2 && n_mid <= 14 && rng.chance(1, 2) {
+        if let Some(s) = gen_monotone_interleaved(rng, n_mid) {
+            return s;
+        }
+    }
+    let mut seq = Vec::new();
+    let mut y = 0.0f32;
+    // three shapes of chains: far apart, coming close to the axis, long convex runs on one side
+    let shape = rng.below(3);
+    let mut run_left = rng.chance(1, 2);
+    let mut run_len = 0usize;
+    let c = |rng: &mut Rng, lo: f64, hi: f64| -> f32 {
+        if lattice {
+            rng.range(lo as i64, hi as i64) as f32
+        } else {
+            rng.uniform(lo, hi) as f32
+        }
+    };
+    // begin/end on the axis when the chains may come within 0.5 of it (keeps the polygon simple)
+    let x0 = if shape == 1 { 0.0 } else { c(rng, -1.0, 1.0) };
+    seq.push((point(x0, y), true));
+    for i in 0..n_mid {
+        y += if lattice { rng.range(1, 3) as f32 } else { rng.uniform(0.1, 3.0) as f32 };
+        let left = match pattern {
+            Some(p) => (p >> i) & 1 == 1,
+            None => {
+                if shape == 2 {
+                    // long runs on one side
+                    if run_len == 0 {
+                        run_left = !run_left;
+                        run_len = rng.range(1, 14) as usize;
+                    }
+                    run_len -= 1;
+                    run_left
+                } else {
+                    rng.chance(1, 2)
+                }
+            }
+        };
+        let x = if shape == 2 && !lattice {
+            // convex arc bulging away from the axis: x = -(2 + 8 sin(pi * progress))
+            let prog = (i as f64 + 0.5) / n_mid as f64;
+            let r = (2.0 + 8.0 * (std::f64::consts::PI * prog).sin() + rng.uniform(-0.3, 0.3)) as f32;
+            if left { -r } else { r }
+        } else if shape == 1 {
+            if left { -c(rng, 0.5, 10.0).max(0.5) } else { c(rng, 0.5, 10.0).max(0.5) }
+        } else if left {
+            -c(rng, 2.0, 10.0)
+        } else {
+            c(rng, 2.0, 10.0)
+        };
+        seq.push((point(x, y), left));
+    }
+    y += if lattice { rng.range(1, 3) as f32 } else { rng.uniform(0.1, 3.0) as f32 };
+    let x1 = if shape == 1 { 0.0 } else { c(rng, -1.0, 1.0) };
+    seq.push((point(x1, y), true));
+    // a horizontal shear keeps the polygon simple and y-monotone but moves the chains across each
+    // other's x-ranges (what the advanced tessellator's reference-x heuristics look at)
+    if rng.chance(1, 2) {
+        let k = if lattice { rng.range(-2, 2) as f32 * 0.5 } else { rng.uniform(-1.5, 1.5) as f32 };
+        for s in seq.iter_mut() {
+            s.0.x += k * s.0.y;
+        }
+    }
+    seq
+}
+
+/// boundary loop of the monotone polygon: begin, right chain downwards, end, left chain upwards
+pub fn monotone_outline(seq: &[(Point, bool)]) -> Vec<Point> {
+    let n = seq.len();
+    let mut v = vec![seq[0].0];
+    for (p, left) in &seq[1..n - 1] {
+        if !*left {
+            v.push(*p);
+        }
+    }
+    v.push(seq[n - 1].0);
+    for (p, left) in seq[1..n - 1].iter().rev() {
+        if *left {
+            v.push(*p);
+        }
+    }
+    v
+}
+
+
+fn tri_area2(a: Point, b: Point, c: Point) -> f64 {
+    (b.x as f64 - a.x as f64) * (c.y as f64 - a.y as f64) - (b.y as f64 - a.y as f64) * (c.x as f64 - a.x as f64)
+}
+
+/// Witness predicate of the known defect of `AdvancedMonotoneTessellator` (hook H2): on this
+/// sequence the advanced tessellator's triangle areas do not add up to the polygon's area while
+/// the basic tessellator's do.
+pub fn advanced_monotone_misbehaves(seq: &[(Point, bool)]) -> bool {
+    let outline = monotone_outline(seq);
+    let mut pa = 0.0f64;
+    for i in 0..outline.len() {
+        let (a, b) = (outline[i], outline[(i + 1) % outline.len()]);
+        pa += a.x as f64 * b.y as f64 - b.x as f64 * a.y as f64;
+    }
+    let pa = pa.abs() * 0.5;
+    let area = |basic: bool| -> f64 {
+        lyon_tessellation::verif_monotone(seq, basic).iter().map(|t| (tri_area2(seq[t.0 as usize].0, seq[t.1 as usize].0, seq[t.2 as usize].0) * 0.5).abs()).sum()
+    };
+    let tol = 1e-4 * (1.0 + pa);
+    (area(true) - pa).abs() <= tol && (area(false) - pa).abs() > tol
 }
